@@ -451,6 +451,12 @@ def meta_trigger_kind(ds, st, minority, major_canon=None, minor_canons=()):
     if M.is_field_pred(st) and ds.split_point() is not None and \
             all(x[0] in ("late", "late_flushed") for x in minority):
         return K_SPLIT
+    if not M.is_agg(st) and M.is_field_pred(st):
+        st0 = dict(st)
+        st0["limit"] = None
+        if json.dumps(M.evaluate(ds, st0, keep_null_rows=True)) != json.dumps(M.evaluate(ds, st0)):
+            return K_NULLROW       # a row whose selected fields are all null passes the filter and takes part in LIMIT/OFFSET;
+            #                        where it lands among rows of equal time differs between executions
     return None
 
 
